@@ -36,11 +36,11 @@ def field():
 
 
 @st.composite
-def block(draw, kinds, big_cb):
+def block(draw, kinds, big_cb, sized=True):
     nf = draw(st.sampled_from(kinds))
     nbase = 16 if nf in (17, 19) else 17
     fields = [draw(field()) for _ in range(nbase)]
-    if draw(st.integers(0, 5)) == 0:
+    if sized and draw(st.integers(0, 5)) == 0:
         # the part before the merge-mining fields encodes to a payload of exactly T bytes: the
         # edges of the RLP list prefix forms (short / one / two length bytes) and of the
         # two-byte length in the metadata
@@ -123,7 +123,9 @@ def one_request(draw, tier):
             if nbro >= 4:
                 # many brothers: variations of one drawn header (a list of ten independently
                 # drawn headers is more than a generated case can hold)
-                base = draw(block([19, 20], False))
+                # (not one of the 64 KiB headers: nine or ten of those, taken a byte at a time,
+                #  make a case of minutes)
+                base = draw(block([19, 20], False, sized=False))
                 lst = []
                 for k in range(nbro):
                     b2 = dict(base, fields=list(base["fields"]))
@@ -300,4 +302,4 @@ def run_one(c, w, p):
 
 def stages(tier):
     return [HypStage("blocks", lambda t: cases(t), run_case, {"quick": 250, "thorough": 2500},
-                     budget_s={"quick": 100, "thorough": 1200})]
+                     budget_s={"quick": 300, "thorough": 1200})]
